@@ -549,7 +549,9 @@ func (u *Unit) solveObl(o *Obl, outDir string, timeoutS int, seed int, axioms []
 			best = x
 		}
 	}
-	if best.st == "timeout" && timeoutS < 60 {
+	if best.st == "timeout" && timeoutS < 60 && houdiniBudget > 4 {
+		// (only on a machine that the load-time calibration found slow: on a machine of normal speed nothing that is
+		// claimed comes near the budget, and the extra race only multiplies the time a changed tree takes)
 		// nobody gave up, everybody ran out of time: on a loaded machine that says nothing about the obligation.
 		// One more race with a four-fold budget before the obligation is reported as not discharged.
 		r2 := u.solveOblBudget(o, file, timeoutS*4, seed)
